@@ -523,6 +523,7 @@ expandfunc(struct macro *m)
 			arrayaddbuf(&str, "\"", 2);
 			arg[i].str = (struct token){
 				.kind = TSTRINGLIT,
+				.loc = t->loc,
 				.lit = str.val,
 			};
 		}
